@@ -319,8 +319,8 @@ func runCheck(args []string) int {
 		knownByID[k.ID] = k
 	}
 	type pending struct {
-		spec HarnessSpec
-		w    Witness
+		spec   HarnessSpec
+		w      Witness
 		id     string
 		kf     string
 		sample bool
@@ -521,26 +521,26 @@ func runCheck(args []string) int {
 		"wall_s":      time.Since(t0).Seconds(),
 		"violations":  len(violLines),
 		"coverage": map[string]interface{}{
-			"states":                        totalPaths,
-			"transitions":                   totalDec,
-			"traces_validated_against_impl": replayed,
-			"samples":                       samples,
-			"obligations":                   totalAsserts,
-			"discharged":                    totalDis,
-			"queries":                       totalQ,
-			"solver_time_s":                 totalSolver,
-			"load_and_ssa_build_s":          loadSec,
-			"exploration_wall_s":            exploreSec,
-			"solvers":                       solverNames(solverVersions),
-			"harnesses":                     hs,
-			"functions_encoded":             funcs,
-			"functions_encoded_count":       len(funcs),
-			"inconclusive":                  inconcLines,
-			"known_findings_matched":        kfMatched,
-			"encoder_mismatches":            mismatches,
+			"states":                          totalPaths,
+			"transitions":                     totalDec,
+			"traces_validated_against_impl":   replayed,
+			"samples":                         samples,
+			"obligations":                     totalAsserts,
+			"discharged":                      totalDis,
+			"queries":                         totalQ,
+			"solver_time_s":                   totalSolver,
+			"load_and_ssa_build_s":            loadSec,
+			"exploration_wall_s":              exploreSec,
+			"solvers":                         solverNames(solverVersions),
+			"harnesses":                       hs,
+			"functions_encoded":               funcs,
+			"functions_encoded_count":         len(funcs),
+			"inconclusive":                    inconcLines,
+			"known_findings_matched":          kfMatched,
+			"encoder_mismatches":              mismatches,
 			"sample_paths_validated_natively": samplesOK,
-			"explanation":                   "states = complete symbolic paths explored (each path covers every input satisfying its path condition); transitions = solver-decided branch decisions; obligations = assertion checks posed to the SMT solver on those paths, discharged = those answered unsat; every sat answer is replayed natively against the real build before it is reported",
-			"exhaustive":                    false,
+			"explanation":                     "states = complete symbolic paths explored (each path covers every input satisfying its path condition); transitions = solver-decided branch decisions; obligations = assertion checks posed to the SMT solver on those paths, discharged = those answered unsat; every sat answer is replayed natively against the real build before it is reported",
+			"exhaustive":                      false,
 		},
 		"assumptions": []string{
 			"go/ssa v0.29.0 lowering of /repo's current working tree is faithful; gosym's instruction semantics (validated by native replay of every counterexample)",
